@@ -943,8 +943,9 @@ def coq_decl(c, r):
     grp = [list(range(nm))] + groups + [[i] for i in singles]
     ogroups = clist(["None" if g_ is None else "(Some %s)" % clist([c_optZ(t) for t in g_]) for g_ in r["groups"]])
     stop = "None" if not run.get("stop") else "(Some (%s, %s))" % (cnat(run["stop"][0]), cnat(run["stop"][1]))
-    return "CDecl %s %s %s %s %s %s %s %s %s %s %s %s %s %s %s" % (
-        priors, clist([clist([cnat(v) for v in f]) for f in fs]), cbool(include),
+    pf = [f[0] for f in gf[len(fs):]]
+    return "CDecl %s %s %s %s %s %s %s %s %s %s %s %s %s %s %s %s" % (
+        priors, clist([clist([cnat(v) for v in f]) for f in fs]), cbool(include), clist([cnat(v) for v in pf]),
         clist([c_obs_mf(m) for m in r["state0"]]), clist([c_obs_mf(m) for m in r["cavity0"]]),
         c_rdelta(run["delta"]), clist([cnat(i) for i in run_order(c, r)]), cnat(run["max_steps"]), stop,
         clist([clist([c_outcome(oc) for oc in sc]) for sc in run["scripts"]]),
